@@ -18,6 +18,7 @@ import (
 	"strconv"
 	"strings"
 	"testing"
+	"time"
 
 	fpgo "github.com/TeaEntityLab/fpGo/v2"
 	"pgregory.net/rapid"
@@ -931,6 +932,14 @@ func TestMatrix(t *testing.T) {
 
 type rec struct{ A int }
 
+type numLike struct{ n int }
+
+func (n numLike) String() string { return strconv.Itoa(n.n) }
+
+type errLike struct{ n int }
+
+func (e errLike) Error() string { return strconv.Itoa(e.n) }
+
 func TestUnsupported(t *testing.T) {
 	x := 5
 	vals := []struct {
@@ -940,6 +949,9 @@ func TestUnsupported(t *testing.T) {
 		{"struct", rec{1}}, {"slice", []int{1}}, {"map", map[string]int{"a": 1}}, {"func", func() {}},
 		{"chan", make(chan int)}, {"array", [2]int{1, 2}}, {"complex128", complex(1, 2)}, {"complex64", complex64(complex(1, 0))},
 		{"*int", &x}, {"*struct", &rec{1}}, {"error", errors.New("1")}, {"Maybe", fpgo.Maybe.Just(1)},
+		// unsupported kinds whose text looks like a number (fmt.Stringer / error / TextMarshaler): still unsupported
+		{"Stringer-struct", numLike{42}}, {"*Stringer-struct", &numLike{7}}, {"*big.Int", big.NewInt(300)}, {"big.Float", *big.NewFloat(1.5)},
+		{"time.Time", time.Unix(0, 0)}, {"error-struct", errLike{1}}, {"[]byte", []byte("12")}, {"[1]string", [1]string{"3"}},
 	}
 	for _, val := range vals {
 		for ti := range targets {
